@@ -366,6 +366,7 @@ def setup_kernel(k):
     P.job_counter = itertools.count()
     BP._children = set()
     BP._process_counter = itertools.count(1)
+    k.root.globals[(BP, '_process_counter')] = BP._process_counter
     k.root.globals[(BP, '_children')] = BP._children
     BC._should_have_exited = [False]
     k.root.globals[(BC, '_should_have_exited')] = BC._should_have_exited
@@ -405,6 +406,20 @@ class _IoShim:
     @staticmethod
     def open(fd, mode='rb', closefd=True):
         return _SimFdWriter(fd)
+
+
+class _SpawnShim:
+    """billiard.spawn as popen_spawn_posix sees it.  The preparation data (sys.argv, sys.path, cwd, main module
+    path of the *harness*) would make the number of bytes written, hence the event log, depend on how the check
+    was started; the simulated interpreter has nothing to prepare, so it gets the name only."""
+    import billiard.spawn as _real
+    get_command_line = staticmethod(_real.get_command_line)
+    get_executable = staticmethod(lambda: 'python')
+    _Django_old_layout_hack__save = staticmethod(lambda: None)
+
+    @staticmethod
+    def get_preparation_data(name):
+        return {'name': name}
 
 
 def _sim_spawnv_passfds(path, args, passfds):
@@ -452,6 +467,7 @@ def install_spawn():
     _set(PSP, 'os', seams.os_shim)
     _set(PSP, 'io', _IoShim)
     _set(PSP, 'spawnv_passfds', _sim_spawnv_passfds)
+    _set(PSP, 'spawn', _SpawnShim)
 
     def _tracker_fd():
         k = state.K
